@@ -9,6 +9,32 @@ func (*GroupAggregator).shouldAllowNullValues
 @*/
 
 /*@
+pure github.com/rulego/streamsql/functions.CreateLegacyAggregator
+
+// a batch ends with an aggregator that knows no group any more
+func (*GroupAggregator).Reset
+  props C03 C01 C04 C07 C09
+  acquires ga.mu
+  modifies ga.groups, ga.groupKeyVals
+  ensures no-group-and-no-key-values-survive-a-reset: fresh(ga.groups) && fresh(ga.groupKeyVals) && forallv(k, "", !dom(ga.groups, k) && !dom(ga.groupKeyVals, k))
+
+func (*GroupAggregator).Put
+  props C03 C01 C04 C07 C09
+  acquires ga.mu
+  modifies ga.context, mapof(ga.context)
+  ensures the-value-is-published-under-its-key-and-nothing-else-changes: ga.context != nil && dom(ga.context, key) && ga.context[key] == val && forallv(k, "", k != key && old(ga.context) != nil ==> (dom(ga.context, k) <==> old(dom(ga.context, k))) && ga.context[k] == old(ga.context[k]))
+
+// the prototype of an aggregate is built for its own type
+func CreateBuiltinAggregator
+  props C03 C01 C04 C07 C09 C17 C12
+  option assumed_frame
+  option pure
+  before CreateLegacyAggregator the-registry-is-asked-for-this-very-type: $arg0 == aggType
+  observe legacy := CreateLegacyAggregator
+  atreturn ordinary-types-come-from-the-function-registry: aggType != "expression" && aggType != "post_aggregation" ==> result == $legacy
+@*/
+
+/*@
 // the stream talks to the aggregator through this interface; implementations are GroupAggregator and
 // EnhancedGroupAggregator (their own contracts above); for callers only the frame and this much is assumed
 extern iface.Aggregator.Add
@@ -28,4 +54,43 @@ extern iface.Aggregator.Reset
   modifies *
   props C01 C08
 
+@*/
+
+/*@
+// ---- text helpers of the post-aggregation parser (C07)
+recfunc apd((s Str) (a Int) (n Int)) Int := (ite (<= n a) 1 (+ (@apd s a (- n 1)) (ite (= (gs.at s (- n 1)) 40) 1 (ite (= (gs.at s (- n 1)) 41) (- 1) 0))))
+
+func findMatchingParen
+  props C07 C03
+  option safety
+  requires start >= 0
+  ensures only-an-opening-parenthesis-has-a-partner: start >= len(s) || s[start] != 40 ==> result == -1
+  ensures the-partner-is-the-first-closing-parenthesis-that-brings-the-depth-back: result != -1 ==> start < result && result < len(s) && s[result] == 41 && apd(s, start + 1, result) == 1 && forall(j, start + 1, result, !(s[j] == 41 && apd(s, start + 1, j) == 1))
+  ensures minus-one-means-it-is-never-closed: result == -1 && start < len(s) && s[start] == 40 ==> forall(j, start + 1, len(s), !(s[j] == 41 && apd(s, start + 1, j) == 1))
+  loop 1 invariant start + 1 <= i && i <= len(s) && count == apd(s, start + 1, i) && count >= 1
+  loop 1 invariant forall(j, start + 1, i, !(s[j] == 41 && apd(s, start + 1, j) == 1))
+  loop 1 decreases len(s) - i
+
+func (*PostAggregationProcessor).checkRequiredFields
+  props C07 C03
+  ensures all-required-columns-present: result0 <==> forall(j, 0, len(requiredFields), dom(result, requiredFields[j]))
+  loop 1 invariant forall(j, 0, $i, dom(result, requiredFields[j]))
+
+extern (*PostAggregationProcessor).markPlaceholderFields
+  props C07 C03
+  modifies allmaps
+
+extern (*PostAggregationProcessor).evaluateExpressionFast
+  props C07 C03
+
+// every compound item is evaluated for every row of the batch, on that row, once all the aggregates it needs are there
+func (*PostAggregationProcessor).ProcessResults
+  props C07 C03
+  acquires p.mu
+  modifies allmaps
+  before checkRequiredFields the-columns-looked-for-are-those-this-item-needs-in-this-row: $arg1 == results[i] && $arg2 == expr__2.RequiredAggFields
+  before evaluateExpressionFast each-item-is-evaluated-from-its-own-expression-on-this-row: $arg1 == expr__2.Expression && $arg2 == results[i] && allPresent
+  atreturn no-row-is-skipped: len(p.expressions) > 0 ==> $done2
+  loop 4 invariant $done3
+  ensures the-batch-itself-is-handed-back: result1 == nil && seqeq(result0, results)
 @*/
